@@ -16,6 +16,14 @@ CLAIMED = {
          "stateless model checking of the real region client on a virtual clock: all schedules up to 2 deviations x server answer patterns x idle period",
          "For 5 (thorough 7) call mixes (direct, multi, cancelled in flight) x 4 server answer patterns, every schedule with <=2 deviations is executed on the real region client over a simulated connection whose deadlines live on a virtual clock; then the clock advances 5 read time-outs and one more request is sent. Oracle: something unanswered => the connection fails no later than last send + readTimeout; everything answered => the connection is never torn down and still works.",
          "Virtual time (timers fire at quiescence); deviation bound 2; executions whose byte stream was corrupted by interleaved senders are left to C05.", "DESIGN.md §4 C18"),
+ "C02": ("model_checking",
+         "stateless model checking of the real region client: all schedules up to a deviation bound x all response permutations x all multi-result permutations x exception placements; key-derived payload oracle",
+         "2-4 concurrent callers on one real region client over a simulated connection; the server thread either holds all requests and answers them in every permutation or answers on arrival; inside each multi-response the result order per region is permuted exhaustively and the trailing cellblock follows that order with 0/1/2 cells per result; per-action and per-region exceptions are placed everywhere; all schedules with <=1 (thorough <=2) deviations. The payload for key k is a function of k, so the oracle knows what each caller must receive without asking the client.",
+         "Deviation bound; <=4 callers; RegionActionResult order equals request order (as HBase does).", "DESIGN.md §4 C02"),
+ "C10": ("exploration",
+         "exhaustive small-scope enumeration of field-length boundaries x mutation kinds x map shapes; two decoders and a set comparison of both encodings",
+         "Every combination of row/family/qualifier/value length boundaries, 6 timestamps incl. the latest sentinel, 5 mutation kinds and 11 value-map shapes (nil/empty inner and outer maps, two families in both orders) is encoded by the client as cellblock and as protobuf; the cellblock is decoded by the client's own reader and by an independent KeyValue reader (identical fields, exact byte consumption, declared count), and the cells denoted by the protobuf form are compared as a set with the cellblock form and with the requested cells.",
+         "Lengths only at the listed boundary values; protobuf-form semantics per HBase ProtobufUtil.", "DESIGN.md §4 C10"),
  "C08": ("model_checking",
          "explicit-state breadth-first search over the real location cache, every transition executed on the implementation and judged against an interval model",
          "All 1683 reachable states of a universe of every interval over 3 boundary points x 2 ids (plus a prefix-named table) with put/del of every region as transitions (87k per configuration), repeated with 0..130 filler regions to move entries across B-tree pages; invariant (no two cached regions of a table intersect) in every state, transition relation (evict-all-older / unchanged) on every edge, dead marks, and a differential rebuild from the canonical state.",
@@ -26,7 +34,7 @@ CLAIMED = {
          "Every ordered pair of ~2.6k (quick) / ~10k (thorough) well-formed region names and every triple of a 160-name subset is compared with the real comparator and with a component-wise (table,start,id) oracle; search keys 'table,key,:' are compared against every name. Exhaustive within the stated alphabet and key length, which is where comparator mistakes live (bytes around ',' and unequal lengths).",
          "Scope bound: start keys <=2/<=3 bytes over {00,'+',',','-','a',ff}; well-formed names only.", "DESIGN.md §4 C16"),
 }
-FIX_COMMITS = ["0da2129", "62252c5"]
+FIX_COMMITS = ["0da2129", "62252c5", "effb93f"]
 NA_REASONS = {}
 PENDING_REASON = "check under construction in this revision (planned: see DESIGN.md §4); not claimed until its check is committed"
 
